@@ -15,4 +15,6 @@ Definition case_out (c : case) : outcome unit * list (outcome unit) :=
   let '(dev, t, u, e, _, _) := c in (validate dev t u e, era_checks dev t u e).
 Definition case_ok (c : case) : bool :=
   let '(dev, t, u, e, e2e, obs) := c in
-  oc_eqb (validate dev t u e) e2e && (is_nil obs || list_eqb oc_eqb (era_checks dev t u e) obs).
+  oc_eqb (validate dev t u e) e2e && (is_nil obs || list_eqb oc_eqb (era_checks dev t u e) obs)
+  (* every generated case lies inside the hypotheses of validate_total *)
+  && wf_params (e_pp e) && wf_tx t && wf_utxo u.
